@@ -12,7 +12,9 @@ For androguard/core/dex/__init__.py, core/axml/__init__.py, core/apk/__init__.py
                 coverage table (`loops_covered`); any change breaks that theorem until the entry is re-read.
 * `countLoops`  every `for` / comprehension over `range(<non-constant>)` inside a parser constructor or parse
                 routine: (file, function, range argument, consumes) where `consumes` says whether the loop body
-                reads from the buffer or constructs an item from it on every iteration (`count_loops_consume`).
+                reads from the buffer or constructs an item from it on every iteration (`count_loops_consume`),
+                and `seeks` whether the body itself repositions the buffer (`seek`), in which case sequential
+                consumption is not automatic and the loop must be in the audited list of forward seeks.
 * `regexes`     every `re.compile/match/search/sub/subn/fullmatch/findall/finditer/split` call: (file, function,
                 pattern text with non-ASCII escaped, or "<dynamic:expr>" when the pattern is not a literal,
                 suspicious) where `suspicious` is a conservative syntactic test for catastrophic backtracking over
@@ -188,7 +190,9 @@ def scan(path, rel):
                         names.add("ctor:" + nm)
         bounded = all(isinstance(a, ast.Call) and getattr(a.func, "id", "") == "len" or isinstance(a, ast.Constant)
                       or (isinstance(a, ast.Name) and a.id.isupper()) for a in it.args)
-        out_counts.append((rel, q, ",".join(ast.unparse(a) for a in it.args), bool(names) or bounded))
+        seeks = any(isinstance(c, ast.Call) and isinstance(c.func, ast.Attribute) and c.func.attr in ("seek", "set_idx")
+                    for b in body_nodes for c in ast.walk(b))
+        out_counts.append((rel, q, ",".join(ast.unparse(a) for a in it.args), bool(names) or bounded, seeks))
     return tree, funcs, out_loops, out_counts
 
 
@@ -429,10 +433,12 @@ def generate(repo):
              "def loops : List (String × String × String × String) := ["]
     lines.append(",\n".join("  (%s, %s, %s, %s)" % tuple(map(lean_str, l)) for l in loops))
     lines += ["]", "",
-              "/-- (file, function, range argument, body reads from the buffer / is bounded by parsed data) -/",
-              "def countLoops : List (String × String × String × Bool) := ["]
-    lines.append(",\n".join("  (%s, %s, %s, %s)" % (lean_str(a), lean_str(b), lean_str(c), "true" if d else "false")
-                            for a, b, c, d in counts))
+              "/-- (file, function, range argument, body reads from the buffer / is bounded by parsed data,",
+              "    body repositions the buffer itself with seek) -/",
+              "def countLoops : List (String × String × String × Bool × Bool) := ["]
+    lines.append(",\n".join("  (%s, %s, %s, %s, %s)" % (lean_str(a), lean_str(b), lean_str(c), "true" if d else "false",
+                                                     "true" if e else "false")
+                            for a, b, c, d, e in counts))
     lines += ["]", "",
               "/-- (file, function, pattern text (non-ASCII escaped) or <dynamic:expr>, suspicious shape) of every `re.*` call -/",
               "def regexes : List (String × String × String × Bool) := ["]
